@@ -236,6 +236,31 @@ def run(tier='quick', repo=None):
                     bad = 'rebase fails after having stored uref.%s' % m.stores[0][0]
             rep.add('R-clock-rebase', inst, VIOLATED if bad else HOLDS, H.funcs['uref_clock_rebase_%s_%s' % (tn, dv)].loc,
                     **({'what': bad} if bad else {}))
+    # ---- delete_date: one domain only ---------------------------------------------------
+    rep.rule('R-clock-delete', 'uref_clock_delete_date_D on a uref that carries dates in all three domains: it stores nothing but the date and the type bits of D - the '
+             'other domains keep their date and type, and the delays (cr_dts_delay, dts_pts_delay, rap_cr_delay), which the three domains share, are untouched: '
+             'every view of the other domains reads as before')
+    for dv in domains:
+        fdel = H.funcs.get('uref_clock_delete_date_%s' % dv)
+        if fdel is None:
+            raise facts.AnalysisBroken('anchor vanished: uref_clock_delete_date_%s' % dv)
+        for t_all in (CR, DTS, PTS):
+            types = {d: t_all for d in domains}
+            fields = {'flags': flags_of(shifts, types), 'cr_dts_delay': A, 'dts_pts_delay': B, 'rap_cr_delay': R}
+            for d in domains:
+                fields['date_' + d] = Lin.sym('date_' + d)
+            rs = single('uref_clock_delete_date_%s' % dv, fields, want_out=False)
+            bad = None
+            after_types = dict(types)
+            after_types[dv] = NONE
+            for ret, _, m in rs:
+                for fld, val in [(s_[0], s_[1]) for s_ in m.stores]:
+                    if fld == 'flags':
+                        if isinstance(val, int) and val != flags_of(shifts, after_types):
+                            bad = 'the type bits become %#x, expected %#x (only those of %s cleared)' % (val, flags_of(shifts, after_types), dv)
+                    elif fld != 'date_' + dv:
+                        bad = 'it stores uref.%s, which the other domains read through (every date of another domain stored as DTS / PTS derives its other views from it)' % fld
+            rep.add('R-clock-delete', '%s:delete-date-all-stored-as-%s' % (dv, TNAME[t_all]), VIOLATED if bad else HOLDS, fdel.loc, **({'what': bad} if bad else {}))
     # ---- set_rap ------------------------------------------------------------------
     RAP = Lin.sym('rap')
     for dv in domains:
